@@ -365,13 +365,15 @@ fn depth(r: &mut Rng) -> usize {
 pub fn gen_state(r: &mut Rng, ctx: &mut GenCtx) -> StateSpec {
     let mut s = StateSpec::default();
     // bindings first, so that names can refer to them
-    let nb = match r.below(5) {
-        0..=1 => 0,
-        2 => 1,
-        _ => r.range(2, 6) as usize,
+    let nb = match r.below(10) {
+        0..=3 => 0,
+        4..=5 => 1,
+        6..=8 => r.range(2, 6) as usize,
+        // many bindings: map iteration order has something to permute
+        _ => r.range(8, 24) as usize,
     };
-    for _ in 0..nb {
-        let k = r.pick(NAME_POOL).to_string();
+    for j in 0..nb {
+        let k = if nb > 6 && j >= 4 { format!("{}{}", r.pick(NAME_POOL), j) } else { r.pick(NAME_POOL).to_string() };
         let v = match r.below(5) {
             0..=2 => ctx.literal(r),
             3 => ctx.instr(r),
